@@ -70,6 +70,17 @@ def run_check(prop, tier, seed):
         forb = core.grep_forbidden(core.module_files(core.transitive_local_imports(spec.get('lean', []))))
         for h in forb:
             broken.append(dict(kind='forbidden-word', what=h, detail=''))
+        # thorough tier: the toolchain's independent re-checker replays the compiled proofs of the property's modules
+        if tier == 'thorough' and not failed and spec.get('lean'):
+            mods = [m for m in core.transitive_local_imports(spec['lean']) if m.startswith('QscProofs')]
+            t1 = time.time()
+            try:
+                rc_, out_, err_ = core.sh(['lake', 'env', 'leanchecker'] + mods, cwd=core.LEAN, timeout=3000)
+            except Exception as ex:
+                rc_, out_, err_ = 2, '', str(ex)
+            ev_extra['leanchecker'] = dict(modules=len(mods), exit=rc_, seconds=round(time.time() - t1, 1), output=(out_ + err_)[-400:])
+            if rc_ != 0:
+                broken.append(dict(kind='leanchecker', what=' '.join(mods)[:300], detail=(out_ + err_)[-600:]))
     # ---- 4: correspondence (model vs implementation)
     ctx = props.Ctx(seed=seed, tier=tier)
     corr = dict(evaluations=0, disagreements=[], samples=[], distinct=0)
@@ -87,6 +98,23 @@ def run_check(prop, tier, seed):
             failures, oracle_stats = spec['oracle'](ctx)
     except Exception as ex:
         broken.append(dict(kind='oracle-crash', what=type(ex).__name__, detail=traceback.format_exc()[-1500:]))
+    # ---- a broken obligation with no failing input so far: widen the search (thorough-size input sets, further seeds)
+    escalations = []
+    if broken and not failures and 'oracle' in spec and os.environ.get('VERIF_NO_ESCALATE') != '1':
+        for s2, t2 in ((seed + 1, 'quick'), (seed + 2, 'quick'), (seed, 'thorough')):
+            if (s2, t2) == (seed, tier) or time.time() - t0 > (240 if t2 == 'thorough' else 400):
+                continue
+            try:
+                f2, st2 = spec['oracle'](props.Ctx(seed=s2, tier=t2))
+            except Exception as ex:
+                escalations.append(dict(seed=s2, tier=t2, crashed=type(ex).__name__))
+                continue
+            escalations.append(dict(seed=s2, tier=t2, evaluations=st2.get('evaluations', 0), failures=len(f2)))
+            oracle_stats['evaluations'] = oracle_stats.get('evaluations', 0) + st2.get('evaluations', 0)
+            if f2:
+                failures = f2
+                break
+        ev_extra['escalated_search'] = escalations
     # ---- known findings
     known = [k for k in load_known() if k['property'] == prop and k.get('status', 'open') == 'open']
     known_lines, unlisted = [], []
